@@ -46,10 +46,11 @@ type vfRecipe struct {
 // ------------------------------------------------------------ concretisation
 
 type vfGamma struct {
-	base  string // "127.a.b."
-	rnd   *rand.Rand
-	decor int // 0: canonical spelling, no decorations; 1: seeded spellings and decorations
-	hard  bool
+	base   string // "127.a.b."
+	rnd    *rand.Rand
+	decor  int // 0: canonical spelling, no decorations; 1: seeded spellings and decorations
+	hard   bool
+	budget int // bytes left for opaque values and body of the message being built (a relayed message must fit a UDP datagram)
 }
 
 // abstract 10.0.x.y -> 127.a.b.(x*10+y); names are kept and resolved by the hosts table
@@ -212,6 +213,7 @@ const vfNamesCfg = "svc.example.com, sos@emergency.example, urn:service:sos, x9[
 type vfHdr struct{ n, v string }
 
 func (g *vfGamma) extHeaders() []vfHdr {
+	g.budget = 52000
 	if g.decor == 0 {
 		return []vfHdr{{"X-Ext", "v1"}}
 	}
@@ -219,6 +221,7 @@ func (g *vfGamma) extHeaders() []vfHdr {
 	if g.hard {
 		n = g.rnd.Intn(41)
 	}
+	g.budget = 52000
 	names := []string{"X-Ext", "Subject", "s", "Contact", "m", "User-Agent", "P-Asserted-Identity", "x-ext", "Allow", "Supported", "k", "Accept", "X-Ext", "Event", "o"}
 	hs := make([]vfHdr, 0, n)
 	for i := 0; i < n; i++ {
@@ -232,7 +235,11 @@ func (g *vfGamma) extHeaders() []vfHdr {
 			case 2:
 				v = "bytes \xff\xfe\x80 end"
 			case 3:
-				b := make([]byte, 1+g.rnd.Intn(16000))
+				sz := 1 + g.rnd.Intn(16000)
+				if sz > g.budget/2 {
+					sz = 1 + g.budget/4
+				}
+				b := make([]byte, sz)
 				for j := range b {
 					b[j] = byte(33 + g.rnd.Intn(94))
 				}
@@ -244,6 +251,7 @@ func (g *vfGamma) extHeaders() []vfHdr {
 				v = g.pick("\u00a0leading-nbsp", "trailing-ideographic-space\u3000", "\u2003both\u0085", "x\v", "y\f")
 			}
 		}
+		g.budget -= len(v) + 24
 		hs = append(hs, vfHdr{names[g.rnd.Intn(len(names))], v})
 	}
 	return hs
@@ -260,6 +268,12 @@ func (g *vfGamma) body() []byte {
 	case 2:
 		if g.hard {
 			n = 1 + g.rnd.Intn(60000)
+			if n > g.budget-2000 {
+				n = g.budget - 2000
+			}
+			if n < 0 {
+				n = 0
+			}
 		} else {
 			n = 1 + g.rnd.Intn(2000)
 		}
@@ -276,6 +290,11 @@ func (g *vfGamma) body() []byte {
 
 // request builds the concrete request of a recipe
 func (g *vfGamma) request(r *vfRecipe) []byte {
+	start, hs, body := g.requestParts(r)
+	return vfRender(start, hs, body)
+}
+
+func (g *vfGamma) requestParts(r *vfRecipe) (string, []vfHdr, []byte) {
 	rc := r.Rc
 	var rts, vias, rrs []string
 	for _, s := range r.Route {
@@ -291,12 +310,12 @@ func (g *vfGamma) request(r *vfRecipe) []byte {
 	if tohost == "" {
 		tohost = "z.z"
 	}
+	X := g.extHeaders()
 	body := g.body()
 	V, RT, R := g.lines("Via", g.join(vias, r.Vlay)), g.lines("Route", g.join(rts, r.Rlay)), g.lines("Record-Route", g.join(rrs, r.Rrlay))
 	F := []vfHdr{{g.name("From"), g.pick("<sip:a@a.example>;tag=ft", "\"A\" <sip:a@a.example>;tag=ft", "sip:a@a.example;tag=ft")}}
 	T := []vfHdr{{g.name("To"), g.pick("<sip:b@"+tohost+">", "B <sip:b@"+tohost+">", "sip:b@"+tohost)}}
 	M := []vfHdr{{g.name("Max-Forwards"), "70"}}
-	X := g.extHeaders()
 	CL := vfHdr{g.name("Content-Length"), fmt.Sprint(len(body))}
 	C := []vfHdr{{g.name("Call-ID"), "cid1@" + g.base}, {g.name("CSeq"), "1 INVITE"}, CL}
 	var hs []vfHdr
@@ -308,7 +327,7 @@ func (g *vfGamma) request(r *vfRecipe) []byte {
 	if g.decor == 1 && g.rnd.Intn(3) == 0 {
 		// beyond the orders enumerated by the model: a random interleaving
 		hs = g.interleave(V, RT, R, M, F, T, C, X)
-		return vfRender("INVITE "+g.ruri(rc.Ruri, rc.Lport)+" SIP/2.0", hs, body)
+		return "INVITE " + g.ruri(rc.Ruri, rc.Lport) + " SIP/2.0", hs, body
 	}
 	switch rc.Order {
 	case "std":
@@ -329,7 +348,7 @@ func (g *vfGamma) request(r *vfRecipe) []byte {
 		panic("unknown order " + rc.Order)
 	}
 	method := "INVITE"
-	return vfRender(method+" "+g.ruri(rc.Ruri, rc.Lport)+" SIP/2.0", hs, body)
+	return method + " " + g.ruri(rc.Ruri, rc.Lport) + " SIP/2.0", hs, body
 }
 
 func (g *vfGamma) lines(canon string, vals []string) []vfHdr {
@@ -382,6 +401,11 @@ func vfRender(start string, hs []vfHdr, body []byte) []byte {
 
 // response builds the concrete response of a recipe (C02 Via shapes)
 func (g *vfGamma) response(r *vfRecipe) []byte {
+	start, hs, body := g.responseParts(r)
+	return vfRender(start, hs, body)
+}
+
+func (g *vfGamma) responseParts(r *vfRecipe) (string, []vfHdr, []byte) {
 	rc := r.Rc
 	la := g.ip("10.0.0.1")
 	own := fmt.Sprintf("SIP/2.0/UDP %s:%d;branch=z9hG4bKown", la, rc.Lport)
@@ -421,12 +445,12 @@ func (g *vfGamma) response(r *vfRecipe) []byte {
 	for i := 1; i <= rc.Nrr; i++ {
 		rrs = append(rrs, g.rtEntry(fmt.Sprintf("sip:%s:5060;lr", g.ip(fmt.Sprintf("10.0.3.%d", i)))))
 	}
+	X := g.extHeaders()
 	body := g.body()
 	V, R := g.lines("Via", g.join(st, r.Vlay)), g.lines("Record-Route", g.join(rrs, r.Rrlay))
 	F := []vfHdr{{g.name("From"), "<sip:a@a.example>;tag=ft"}}
 	T := []vfHdr{{g.name("To"), "<sip:b@e.x>;tag=tt"}}
 	M := []vfHdr{{g.name("Max-Forwards"), "70"}}
-	X := g.extHeaders()
 	CL := vfHdr{g.name("Content-Length"), fmt.Sprint(len(body))}
 	C := []vfHdr{{g.name("Call-ID"), "cid1@" + g.base}, {g.name("CSeq"), "1 INVITE"}, CL}
 	var hs []vfHdr
@@ -441,7 +465,7 @@ func (g *vfGamma) response(r *vfRecipe) []byte {
 	}
 	if g.decor == 1 && g.rnd.Intn(3) == 0 {
 		hs = g.interleave(V, R, M, F, T, C, X)
-		return vfRender(fmt.Sprintf("SIP/2.0 %d %s", rc.Status, reason), hs, body)
+		return fmt.Sprintf("SIP/2.0 %d %s", rc.Status, reason), hs, body
 	}
 	switch rc.Order {
 	case "from1st":
@@ -457,7 +481,7 @@ func (g *vfGamma) response(r *vfRecipe) []byte {
 	default:
 		cat(V, R, M, F, T, C, X)
 	}
-	return vfRender(fmt.Sprintf("SIP/2.0 %d %s", rc.Status, reason), hs, body)
+	return fmt.Sprintf("SIP/2.0 %d %s", rc.Status, reason), hs, body
 }
 
 // ------------------------------------------------------------ the run
